@@ -299,6 +299,10 @@ func (f *file) writeBlobAt(op string, p blob.Blob, off int64) (n int, err error)
 	if f.flag&hackpadfs.FlagAppend != 0 {
 		off = int64(f.Size())
 	}
+	if p.Len() == 0 && off >= 0 {
+		// nothing to write, in particular don't grow the file up to 'off'
+		return 0, nil
+	}
 
 	endIndex := off + int64(p.Len())
 	if int64(f.Size()) < endIndex {
